@@ -49,6 +49,10 @@ CHECKS = {
             "Every script of the stated families (all single arguments x metadata variants, all ordered pairs of 55 argument shapes in four syntactic arrangements, list keywords, mode forms, loops, tdm programs with p-arrays; thorough: triples, options x pairs, 3 statements) is loaded, serialised and re-loaded generation after generation until the text repeats; each generation must be equivalent to the previous one (exact for numbers/booleans/strings/lists/arrays, by evaluation for symbolic arguments). All generations are covered because dumps o loads is a function of the text once it repeats.",
             "Trusted: the equivalence (bbv/props/equiv.py). Variables of non-tdm programs and presence of an args key are not compared.",
             "DESIGN.md section 5 C01"),
+    "C08": ("model_checking", "stateless schedule exploration: every combination of symbol-set iteration orders (forced-prefix reruns) per enumerated case, vs reference model",
+            "Cases = 15 (thorough 17) polynomial/rational expression shapes x every ordered choice of distinct registers from {q0,q1,q3,q10} (thorough adds q2, q007) x {positional, keyword, both} x {plain, after a measurement, inside a for-loop}. For every case every resolution of the intercepted nondeterminism (iteration order of free_symbols at every site reached from blackbird code) is executed; in each the transform must list exactly the written registers and its function, applied in the listed order, must compute the written formula.",
+            "The seam is in SymPy (Basic.free_symbols), installed by the harness; sets of ints are deterministic in CPython and not choice points.",
+            "DESIGN.md section 5 C08"),
     # id: (category, technique, text, note, design_ref)
     "C02": ("exploration", "bounded-exhaustive enumeration of script prefixes (BFS over item sequences) vs reference denotation",
             "Every item sequence over the statement menu up to the stated depth is rendered, loaded by the real parser/evaluator and compared with an independently written reference denotation; complete for the stated alphabet and depth, nothing beyond.",
